@@ -79,6 +79,13 @@ def _outcome(ctx, root, info):
         return None
     if oc[0] == "error":
         raise ResolverError(oc[1], extensions=oc[2] if len(oc) > 2 else None)
+    if oc[0] == "gen-error":
+        # a list resolver that answers with a generator which fails with the library's resolver error while it is being consumed
+        def gen(items=oc[1]):
+            for it in items:
+                yield it
+            raise ResolverError("generator failed")
+        return gen()
     if oc[0] == "shared-error":
         # ONE error object per message for the life of the process: a resolver raising a pre-built instance (module-level constant) at several
         # positions and in several requests - every position still gets its own error, path and location
@@ -408,6 +415,7 @@ def worlds_for(schema, query, variables, operation_name=None, with_boom=False, l
     from py_gql.schema import ListType, NonNullType
     name, paths = base_paths(schema, query, variables, operation_name)
     out = [("default", {})]
+    fixed_gen = []
     for path, t in paths:
         out.append(("null@%s" % (path,), {path: ("null",)}))
         out.append(("error@%s" % (path,), {path: ("error", "E%d" % len(path), {"code": len(path)} if len(path) % 2 else None)}))
@@ -416,6 +424,7 @@ def worlds_for(schema, query, variables, operation_name=None, with_boom=False, l
             one = RX._default_for(schema, inner.type, path + (0,), 0)
             out.append(("list-null-item@%s" % (path,), {path: ("value", [one, None])}))
             out.append(("empty-list@%s" % (path,), {path: ("value", [])}))
+            fixed_gen.append(("gen-error@%s" % (path,), {path: ("gen-error", [one])}))
         if getattr(inner, "name", None) == "Any":
             out.append(("void@%s" % (path,), {path: ("value", RX.VOID)}))       # serialises to null although the resolver returned a value
         if with_boom:
@@ -437,7 +446,7 @@ def worlds_for(schema, query, variables, operation_name=None, with_boom=False, l
     if limit is not None and len(out) > limit:
         step = len(out) / float(limit)
         out = [out[int(i * step)] for i in range(limit)]
-    out[1:1] = fixed
+    out[1:1] = fixed + fixed_gen[:1]
     return name, out
 
 
